@@ -161,6 +161,12 @@ def grid_clean(rid, truth):
     code = lambda d: isinstance(d, str) and d.startswith("```") and d != NoneStr  # noqa: E731
     if any(t is None or not p for _, t, p, _ in params):
         return False  # untyped / prose-less parameters
+    if any(t in [x for x, _ in grid.TD_MORE] for _, t, _, _ in es):
+        return False  # nested generics with str defaults: regions of KF-RT-fn-typ-from-default and friends
+    if any(p.startswith(("Optional", "(Optional)")) for _, _, p, _ in params):
+        return False  # KF-RT-optional-prose-wraps-type
+    if any(isinstance(d, str) and "." in d and not code(d) for _, _, _, d in es):
+        return False  # KF-RT-str-default-dot
     if any(isinstance(d, str) and (d == "" or code(d)) for _, _, _, d in es):
         return False  # empty-string and code defaults
     if any(t == "Union[int, str]" and d != ABSENT for _, t, _, d in es):
